@@ -61,8 +61,10 @@ SPEC = {
     "not_proved": [
         "interleavings inside commit on the real locks (granularity B: lock in address order, validate, publish, unlock) and absence of "
         "deadlock there; memory ordering; wait_for_change",
-        "the premise that operations touch shared memory only through Transaction::read/write — false for three_sew/three_unsew "
-        "(non-transactional orbit(), D4) and insert_vertex(es)_on_edge (is_free, D3); the explorer targets these sites",
+        "the premise that operations touch shared memory only through Transaction::read/write is a fact about the code, not a theorem: "
+        "the explorer reports every non-transactional read it sees ('atomic_reads' in the statistics) and keeps the scenarios that "
+        "exhibited D4 (three_sew/three_unsew walked the faces with orbit(); repaired in f79acf8) and D3 (insert_vertex(es)_on_edge "
+        "tested spare darts with is_free; repaired in cc2bcd4) as regression targets",
         "an aborting transaction (Err) is not validated by fast-stm: its error may stem from a torn snapshot (allowed by the property; "
         "counted as 'unexplained_errors' in the statistics)",
     ],
@@ -389,17 +391,23 @@ DEEP = {"fan-sew-obs-m0", "fan-unsew-resew-m1", "sew3-unsew3-vs-queries", "query
 
 
 def scenarios(tier, seed):
-    """quick: every schedule with <= 2 preemptions (3 for the DEEP ones, all of them for the tiny ones), 3-4 threads: <= 1
-    preemption + 300 random + 300 PCT schedules.  thorough: bounds 3 / 4, more random scenarios, long random / PCT tails."""
+    """quick: every schedule with <= 3 preemptions of the hand-written 2-thread scenarios (all schedules of the tiny ones),
+    <= 2 preemptions of the random 2-thread ones; 3-4 threads: <= 1 preemption + 300 random + 300 PCT schedules.
+    thorough: 4 preemptions for the DEEP ones, 3 for the random ones (6x as many), 3-4 threads: <= 2 preemptions + 3000 + 3000,
+    and every hand-written scenario again with 5000 random + 5000 PCT schedules."""
     rng = random.Random(seed)
     quick = tier == "quick"
     P = 2 if quick else 3
     base = {"preempt": P, "cap": 60000 if quick else 1000000}
-    deep = {"preempt": P + 1, "cap": 300000 if quick else 2000000}
+    # hand-written 2-thread scenarios: 3 preemptions in both tiers; the DEEP ones 4 in the thorough tier
+    mid = {"preempt": 3, "cap": 300000 if quick else 1000000}
+    deep = {"preempt": 3 if quick else 4, "cap": 300000 if quick else 1500000}
     hand = rmw_scenarios() + link_scenarios() + query_scenarios() + fan_scenarios() + three_d_scenarios() + d4_scenarios() + d3_scenarios()
     for s in hand:
         if s.name in DEEP:
             s.params.update(deep)
+        elif s.tags & {"fan", "3d", "d4", "d3", "query"} and len(s.threads) == 2:
+            s.params.update(mid)
     scs = hand
     rp = {} if quick else {"cap": 200000}
     scs += random_scenarios(rng, 100 if quick else 600, params=rp)
@@ -593,7 +601,8 @@ def oracle(case, li):
 
 
 # ---------------------------------------------------------------------------------------------
-# known-finding signatures (re-derived from the raw replay payload)
+# signatures of the two defect classes the explorer found on the tree before cc2bcd4 / f79acf8 (re-derived from the raw
+# replay payload; used to report a regression once per class)
 # ---------------------------------------------------------------------------------------------
 
 def _threads_of(lines):
@@ -715,11 +724,9 @@ def d3_signature(v):
 
 
 def matches(known, v):
-    sig = known.get("matcher", {}).get("signature")
-    if sig == "three-sew-orbit-not-transactional-vs-concurrent-one-link":
-        return d4_signature(v)
-    if sig == "insert-vertex-is_free-not-transactional-vs-concurrent-edit-of-spare-dart":
-        return d3_signature(v)
+    """no known finding for C07: both non-transactional-read defects are repaired in /repo (cc2bcd4: transactional is_free in
+    the vertex insertion kernels, f79acf8: orbit_transac in three_sew/three_unsew).  The scenarios that exhibited them
+    (d3_scenarios, d4_scenarios) stay in every tier; d3_signature / d4_signature only group the violations of a regression."""
     return False
 
 
@@ -742,7 +749,7 @@ def check_scenarios(binary, scs, jobs=4):
     cases, violations = [], []
     by_name = {s.name: s for s in scs}
     agg = {"scenarios": len(scs), "schedules": 0, "by_mode": {}, "distinct_outcomes": 0, "retries": 0, "runs_with_retry": 0,
-           "atomic_reads": 0, "first_reads": 0, "stm_blocks": 0, "max_preemptions": 0, "exhaustive_scenarios": 0,
+           "atomic_reads": 0, "first_reads": 0, "stm_blocks": 0, "diverged_replays": 0, "max_preemptions": 0, "exhaustive_scenarios": 0,
            "truncated_scenarios": 0, "scenarios_with_retries": 0, "scenarios_with_2plus_commit_orders": 0,
            "max_distinct_commit_orders": 0, "max_steps_per_run": 0, "by_family": {}}
     for s in scs:
@@ -752,8 +759,8 @@ def check_scenarios(binary, scs, jobs=4):
                                "replay": {"theorem_or_correspondence": "schedule exploration of " + s.name, "scenario_lines": s.text()}})
         sm = r["summary"]
         if sm:
-            for k in ("schedules", "retries", "runs_with_retry", "atomic_reads", "first_reads", "stm_blocks"):
-                agg[k] += sm[k]
+            for k in ("schedules", "retries", "runs_with_retry", "atomic_reads", "first_reads", "stm_blocks", "diverged_replays"):
+                agg[k] += sm.get(k, 0)
             for k, n in sm["by_mode"].items():
                 agg["by_mode"][k] = agg["by_mode"].get(k, 0) + n
             agg["distinct_outcomes"] += sm["distinct_outcomes"]
